@@ -503,8 +503,90 @@ def run_prediction_frames(case):
     return {"behaviour": [family, len(viol)], "violations": viol, "stats": {"prediction_frames": 1}}
 
 
+def run_docgraph(case):
+    """Models that never saw a baseline in this process - built from a 2.0 document (from_2_0_dict), a current document (from_dict)
+    or a stored billing document - explored over reporting sets in TWO zones (the document's and another one), with and without usage:
+    whatever a call does (predict or refuse), it does the same after any history, and the object's document does not change."""
+    import opendsm.eemeter as em
+    from .. import dailydocs as dd
+
+    kind = case["doc"]
+    key0 = {"family": kind}
+    if kind == "daily_2_0":
+        model = em.DailyModel.from_2_0_dict({"model_type": "cdd_hdd", "model_params": {"intercept": 20.0, "beta_hdd": 0.8, "heating_balance_point": 55.0,
+                                                                                     "beta_cdd": 1.1, "cooling_balance_point": 68.0}})
+    elif kind == "daily_doc":
+        model = em.DailyModel.from_dict(dd.document({"fw-su_sh_wi": dd.submodel(dd.coeffs("hdd_tidd_cdd"))}, dd.settings_dump("current"), tz=ZONE))
+    else:
+        sb = dd.settings_dump("billing")
+        sb["developer_mode"] = True
+        model = em.BillingModel.from_dict(dd.document({"fw-su_sh_wi": dd.submodel(dd.coeffs("hdd_tidd_cdd"))}, sb, tz=ZONE))
+    fam = "billing" if kind == "billing_doc" else "daily"
+    alphabet, data_objs = [], {}
+    for zone in ("UTC", ZONE, "Asia/Kolkata"):
+        for name, start, ndays in (("week", "2022-07-04", 7), ("quarter", "2022-02-01", 95)):
+            for usage in (True, False):
+                fr = ds.daily_frame(start=start, days=ndays, tz=zone, wseed=1, seed=11, noise=0.05)
+                opn = f"predict:{name}:{zone}:{'usage' if usage else 'nousage'}"
+                try:
+                    if fam == "daily":
+                        data_objs[opn] = em.DailyReportingData(fr if usage else fr[["temperature"]], is_electricity_data=True)
+                    elif usage and ndays >= 28:
+                        data_objs[opn] = em.BillingReportingData.from_series(ds.billing_reads(fr["observed"]), fr["temperature"], is_electricity_data=True)
+                    else:
+                        data_objs[opn] = em.BillingReportingData.from_series(None, fr["temperature"], is_electricity_data=True)
+                except Exception:
+                    continue
+                alphabet.append((opn, opn))
+
+    def canon(m):
+        try:
+            js = m.to_json()
+        except Exception as exc:
+            js = "to_json raises " + type(exc).__name__
+        return F.fp(m) + "|" + F.fp(js)
+
+    def step(m, op):
+        d = data_objs[op]
+        fp0, a0 = F.fp_attrs(d)
+        try:
+            res = {"out": out_fp(m.predict(d))}
+        except Exception as exc:
+            res = {"out": "raise:" + type(exc).__name__}
+        fp1, a1 = F.fp_attrs(d)
+        if fp0 != fp1:
+            res["data_changed"] = F.diff_attrs(a0, a1)
+        return res
+
+    viol = []
+    ref = {name: step(copy.deepcopy(model), op) for name, op in alphabet}
+    doc0 = canon(model).split("|")[1]
+
+    def check_state(m, hist):
+        if canon(m).split("|")[1] != doc0:
+            return [{"clause": "document_changed_by_use", "key": dict(key0, after=hist[-1].split(":")[0] if hist else "load"),
+                     "detail": f"to_json() differs after history {hist}"}]
+        return []
+
+    def check_transition(src_hist, name, op, outcome, m_after):
+        v = []
+        if outcome["out"] != ref[name]["out"]:
+            v.append({"clause": "history_dependent_output", "key": dict(key0, op=name.split(":")[0]),
+                      "detail": f"{name} after {src_hist} gives {outcome['out']}, on a pristine copy {ref[name]['out']}"})
+        if outcome.get("data_changed"):
+            v.append({"clause": "predict_modifies_data_object", "key": dict(key0), "detail": f"{name} after {src_hist}: {outcome['data_changed']}"})
+        return v
+
+    g = stategraph.bfs(model, alphabet, step, canon, check_state, check_transition, max_depth=case.get("depth", 2))
+    viol += g.violations
+    summ = g.summary()
+    summ.update(family=kind, alphabet=len(alphabet), raising_ops=sorted(n for n in ref if str(ref[n]["out"]).startswith("raise")))
+    return {"behaviour": [kind, summ["states"], summ["fixpoint"], len(summ["raising_ops"]), len(viol)], "violations": viol,
+            "stats": {"states": summ["states"], "transitions": summ["transitions"], "fixpoint": int(summ["fixpoint"])}, "extra": summ}
+
+
 def run_case(case):
-    return {"graph": run_graph, "frames": run_frames, "pframes": run_prediction_frames}[case["part"]](case)
+    return {"graph": run_graph, "frames": run_frames, "pframes": run_prediction_frames, "docgraph": run_docgraph}[case["part"]](case)
 
 
 def cases(tier):
@@ -516,6 +598,8 @@ def cases(tier):
         out.append({"part": "pframes", "family": f, "tier": tier})
     for f in fams:
         out.append({"part": "graph", "family": f, "days": 365, "depth": 2, "tier": tier, "loaded": True})
+    for doc in ("daily_2_0", "daily_doc", "billing_doc"):
+        out.append({"part": "docgraph", "doc": doc, "family": doc, "depth": 2, "tier": tier})
     for f in fams + VARIANTS:
         for days in ((365, 330) if ((tier == "thorough" and f in fams) or f in ("hourly",)) else (365,)):
             out.append({"part": "graph", "family": f, "days": days, "depth": 3 if tier == "thorough" and f != "caltrack" else 2, "tier": tier})
@@ -529,12 +613,13 @@ def run(tier, seed):
         ex = explore.explore(pool, "state graphs + frames", MOD, "run_case", cs, seed=seed, chunk=1)
     states = ex.stats.get("states", 0)
     trans = ex.stats.get("transitions", 0)
-    graphs = [c for c in cs if c["part"] == "graph"]
+    graphs = [c for c in cs if c["part"] in ("graph", "docgraph")]
     cov = explore.merge_coverage(
         [ex],
         rule="graph cases: one fitted model per (family, baseline length); BFS over histories of predict(R_i) (5 spans x with/without "
         "usage) and fit-of-another-meter; behaviour = (family, days, states, fixpoint, #violations). frames cases: every constructor / "
-        "from_series entry point of the family's data classes. pframes: prediction-frame independence",
+        "from_series entry point of the family's data classes. pframes: prediction-frame independence. docgraph cases: models built from a "
+        "2.0 document / a current document / a billing document, BFS over predict() on reporting sets in three zones",
         level_extra={
             "states": max(states, 1), "transitions": max(trans, 1), "traces_validated_against_impl": trans,
             "graphs": len(graphs), "graphs_at_fixpoint": ex.stats.get("fixpoint", 0),
